@@ -100,7 +100,7 @@ fn contexts(arg: f64, collide: &str, uid: usize) -> Vec<Ctxt> {
 }
 
 fn part_call_sites(ctx: &Ctx, sink: &mut Sink) {
-    let rounds = ctx.budget(2500, 40_000);
+    let rounds = ctx.budget(2500, 300_000);
     for i in 0..rounds {
         if !ctx.mine(i) {
             continue;
@@ -181,7 +181,7 @@ fn part_call_sites(ctx: &Ctx, sink: &mut Sink) {
 /// captured names): the value right after the definition is the reference (model-free); every
 /// calling context that rebinds a captured / parameter name must give the identical value.
 fn part_random_closures(ctx: &Ctx, sink: &mut Sink) {
-    let n = ctx.budget(20_000, 400_000);
+    let n = ctx.budget(20_000, 3_000_000);
     for i in 0..n {
         if !ctx.mine(i) {
             continue;
